@@ -508,6 +508,7 @@ func (w *c09World) do(tb c09TB, rq *c09Req, id request) c09Result {
 	w.net.mu.Unlock()
 	w.cs.mu.Lock()
 	w.cs.failSize, w.cs.failLookup = rq.fault == "size", nil
+	w.cs.failPanic = rq.fault == "panic"
 	if rq.fault == "lookup" {
 		w.cs.failLookup = errors.New("c09 fault: lookup failed")
 	}
@@ -568,7 +569,11 @@ func (w *c09World) do(tb c09TB, rq *c09Req, id request) c09Result {
 		pstack = x.scope.panicSeen
 		x.scope.mu.Unlock()
 	}
-	if pstack != "" || w.cs.panicked.Load() > pan0 {
+	if rq.fault == "panic" {
+		// injected below the handler: it must have been recovered (an escape was judged above), the
+		// accessor and the memory checks below apply as for every other exchange
+		vk.Count("injected_panics_recovered", 1)
+	} else if pstack != "" || w.cs.panicked.Load() > pan0 {
 		vk.Count("recovered_panics", 1)
 		vk.Note("recovered panic while handling %s: %s", rq.desc(), c09PanicOrigin(pstack))
 		if os.Getenv("VERIF_C09_STRICT_PANICS") == "1" {
@@ -1175,7 +1180,7 @@ func (w *c09World) genFault(t *rapid.T) *c09Req {
 	rq := &c09Req{class: "fault", via: "client", kind: rapid.IntRange(0, c09Kinds-1).Draw(t, "kind")}
 	h, sq := w.genHeld(t)
 	rq.f = c09GenValidFields(t, rq.kind, h, sq)
-	rq.fault = rapid.SampledFrom([]string{"service", "reserve", "size", "lookup"}).Draw(t, "fault")
+	rq.fault = rapid.SampledFrom([]string{"service", "reserve", "size", "lookup", "panic"}).Draw(t, "fault")
 	rq.how = "fault"
 	return rq
 }
@@ -1446,7 +1451,7 @@ func TestVerifC09_SmallExhaustive(t *testing.T) {
 			if kind == c09ND {
 				f.ns = c09NSCandidates(sq)[0].Bytes()
 			}
-			for _, fault := range []string{"service", "reserve", "size", "lookup"} {
+			for _, fault := range []string{"service", "reserve", "size", "lookup", "panic"} {
 				w.run(t, &c09Req{class: "fault", kind: kind, f: f, how: "fault", via: "client", fault: fault})
 			}
 		}
